@@ -13,7 +13,7 @@
 
 const char *harness_name = "c18_bytebuf";
 
-#define MAXSZ 320
+#define MAXSZ 66100
 
 struct model {
     size_t size, used, offset;
@@ -57,8 +57,8 @@ step(ByteBuffer *b, unsigned char *mem, struct model *m, int op, size_t n, const
     char ctx[200];
     snprintf(ctx, sizeof ctx, "%s %s(%zu) from offset=%zu used=%zu size=%zu", ctx0, opname[op], n, m->offset,
              m->used, m->size);
-    struct model before = *m;
-    unsigned char memb[MAXSZ];
+    const size_t before_used = m->used;
+    static unsigned char memb[MAXSZ];
     memcpy(memb, mem, m->size);
     int image_fixed = 0;
     switch (op) {
@@ -165,15 +165,15 @@ step(ByteBuffer *b, unsigned char *mem, struct model *m, int op, size_t n, const
                     vh_hex(mem, m->size));
         image_fixed = 0;
     }
-    if (op == OP_ADD && before.used == m->used) {
+    if (op == OP_ADD && before_used == m->used) {
         /* refused add: nothing may change */
         if (memcmp(mem, memb, m->size) != 0)
             vh_fail("refused-add-modifies", "op=add", "%s: memory changed", ctx);
         image_fixed = 0;
     }
-    if (op == OP_ADD && before.used != m->used) {
+    if (op == OP_ADD && before_used != m->used) {
         /* accepted add: only [used, used+n) may change */
-        memcpy(memb + before.used, src, n);
+        memcpy(memb + before_used, src, n);
         if (memcmp(mem, memb, m->size) != 0)
             vh_fail("add-outside", "op=add", "%s: memory %s expected %s", ctx, vh_hex(mem, m->size),
                     vh_hex(memb, m->size));
@@ -339,16 +339,23 @@ u_history(uint64_t idx, void *arg)
     for (int k = 0; k < 10; k++) {
         vh_arena_reset();
         size_t size = 1 + (size_t)vh_below(&r, vh_chance(&r, 1, 3) ? 12 : 300);
+        int large = vh_chance(&r, 1, 15);
+        if (large) {
+            /* sizes and operand lengths beyond 255 and 65535 */
+            static const size_t big[] = { 255, 256, 257, 1000, 65535, 65536, 65537, 66000 };
+            size = big[vh_below(&r, 8)];
+            VH_COUNT("history: buffer size above 254");
+        }
         unsigned char *mem = vh_arena(size);
         ByteBuffer b;
-        struct model m;
+        static struct model m;
         memset(&m, 0, sizeof m);
         m.size = size;
         memcpy(m.img, mem, size);
         if (byte_buffer_space(&b, mem, size) != 0)
             vh_fail("space", "op=space", "refused size=%zu", size);
         unsigned next = 1;
-        size_t nops = vh_tier ? 1500 : 400;
+        size_t nops = large ? 120 : vh_tier ? 1500 : 400;
         char hist[160];
         size_t hl = 0;
         hist[0] = 0;
@@ -356,7 +363,7 @@ u_history(uint64_t idx, void *arg)
             VH_CASE4(idx, k, size, i);
             if ((i & 15) == 0) {
                 /* keep the arena from filling up: operands are re-carved */
-                unsigned char save[MAXSZ];
+                static unsigned char save[MAXSZ];
                 memcpy(save, mem, size);
                 vh_arena_reset();
                 mem = vh_arena(size);
@@ -367,7 +374,7 @@ u_history(uint64_t idx, void *arg)
             int op = x < 38 ? OP_ADD : x < 62 ? OP_CONSUME : x < 80 ? OP_ATMOST : x < 90 ? OP_REWIND
                      : x < 93 ? OP_RESET : x < 95 ? OP_CLEAR : OP_REPEAT;
             size_t n = 0;
-            unsigned char src[MAXSZ + 8];
+            static unsigned char src[MAXSZ + 8];
             if (op <= OP_ATMOST) {
                 size_t room = op == OP_ADD ? m.size - m.used : m.used - m.offset;
                 unsigned y = (unsigned)vh_below(&r, 10);
@@ -413,7 +420,8 @@ harness_run(void)
                                  "consume_at_most refused (nothing unread)", "consume_at_most clipped",
                                  "consume_at_most full", "rewind with consumed prefix and unread rest",
                                  "rewind with everything consumed", "rewind at offset 0", "reset", "clear", "repeat",
-                                 "set accepted", "set refused", "use/space checked" };
+                                 "set accepted", "set refused", "use/space checked",
+                                 "history: buffer size above 254" };
     for (size_t i = 0; i < sizeof req / sizeof req[0]; i++)
         vh_require(req[i]);
 }
